@@ -72,7 +72,8 @@ Print Assumptions engine_on_a_plain_document_is_the_union_over_its_parts.
 (* FOR EVERY DOCUMENT (referencing object maps, quoted triples maps of any depth, function executions): the generation rules give the same
    statements however the triples maps of a document with distinct identifiers are ordered; and every statement of a part is a statement of
    the whole (`_partial`: the converse inclusion -- the whole has nothing beyond its CLOSED parts -- is proved for plain documents above and
-   for the engine's rule tables (`document_is_union_of_parts_partial`); for arbitrary nesting it needs a bound on the nesting fuel that is not proved) *)
+   for the engine's rule tables (`document_is_union_of_parts_partial`); for arbitrary nesting it needs an acyclic reference graph -- a triples map that quotes itself
+   through one object map and ends through another nests as deep as the fuel allows -- and is not proved) *)
 From Coq Require Import Permutation.
 From Morph Require Import Proofs.DocOrderP.
 Theorem triples_map_order_is_irrelevant : forall scfg fe tables d d', Permutation d d' -> NoDup (map t_id d) ->
